@@ -59,7 +59,7 @@ class Projection:
         curves.append(Derivate(curves[0]))
         curves.append(Derivate(curves[1]))
         tparams = np.linspace(umin, umax, 5)
-        tvalues = set()
+        tvalues = {umin, umax}
         for tparam in tparams:
             newt = Projection.__newton_point_on_curve(point, curves, tparam)
             tvalues |= set(newt)
